@@ -135,6 +135,44 @@ func init() {
 }
 
 func init() {
+	// small and large frames of one pair on one link: the flusher buffers small frames and must not let a
+	// frame larger than its buffer pass them
+	for _, pool := range []int{1, 2} {
+		pool := pool
+		harn.Register(harn.Scenario{Property: "C13", Name: fmt.Sprintf("fifo-small-large-mix-pool%d", pool), Run: func(ctx *harn.Ctx) *harn.Result {
+			return harn.Explore(ctx, harn.Sched{QuickBound: 1, ThoroughBound: 2, Preempt: false, Cache: true, Body: netBody(netOpts{}, func(nw *NetWorld) {
+				var errs []string
+				spid := seqSender(nw.a, "S", &errs)
+				rpid := nw.b.spawnProbe("R", probeCfg{}, gen.ProcessOptions{})
+				nw.connect()
+				for k := 1; k < pool; k++ {
+					nw.addLink()
+				}
+				if nw.ex.Failed() {
+					return
+				}
+				big := func(tag string, n int) string { return tag + strings.Repeat("x", n) }
+				msgs := []string{"s1", big("L2", 5000), "s3", big("L4", 70000), "s5", big("L6", 4090), "s7"}
+				nw.ex.Thread("GO", func() { nw.a.n.Send(spid, seqReq{rpid, msgs}) })
+				nw.Check = func() {
+					var got, want []string
+					for _, g := range handled(nw.b.recs["R"], "M:") {
+						got = append(got, g[:2])
+					}
+					for _, m := range msgs {
+						want = append(want, m[:2])
+					}
+					if !inOrder(got, want) {
+						nw.ex.Fail("network-order-violated", "sent %v (s = a few bytes, L = 4-70 KB) over a pool of %d; handled in the order %v", want, pool, got)
+					}
+					if len(got) != len(want) && len(errs) == 0 {
+						nw.ex.Fail("network-message-lost", "sent %v, handled %v, no send error", want, got)
+					}
+					nw.Out("got=%s errs=%v", strings.Join(got, ","), errs)
+				}
+			})})
+		}})
+	}
 	// a pooled link drops in the middle of two streams (one in each direction) and is re-dialled by the real
 	// Serve/Join code of the initiator: what arrives, arrives in order (what was in flight on the cut link may be lost)
 	for _, cut := range []int{0, 1, 2} {
